@@ -14,6 +14,9 @@ import (
 
 // GetLabelAtScaledPoint returns the 64-bit unsigned int label for a given point.
 func (d *Data) GetLabelAtScaledPoint(v dvid.VersionID, pt dvid.Point, scale uint8, supervoxels bool) (uint64, error) {
+	if pt.NumDims() != 3 {
+		return 0, fmt.Errorf("Can't get label for point %s, which is not a 3d point", pt)
+	}
 	coord, ok := pt.(dvid.Chunkable)
 	if !ok {
 		return 0, fmt.Errorf("Can't determine block of point %s", pt)
